@@ -93,8 +93,10 @@ Definition sp_run_ops_at (ts : N) (ops : list op) : list out := snd (sp_run_from
 (* same wire format as Model.run; n and t are read and ignored *)
 Definition sp_run (input : list N) : list N :=
   match input with
-  | n :: t :: ts :: r =>
+  | n :: t :: ts :: u0 :: r =>
+      let u := unit_of u0 in
+      let ops := map (scale_op u) (decode_all dec_op r) in
       if (n =? 0) || (t =? 0) then [7]
-      else flat_map enc_out (sp_run_ops_at ts (decode_all dec_op r))
+      else flat_map enc_out (map (unscale_out u) (sp_run_ops_at (ts * u) ops))
   | _ => [7]
   end.
